@@ -55,6 +55,9 @@ func (c04) Gen(rng *rand.Rand, tier string, k int) *Case {
 		c = genStratCase(rng, tier)
 		S := max(0, measureWarmup(c))
 		n := S + 1 + rng.Intn(S+8)
+		if rng.Intn(3) == 0 {
+			n = S + 10 + rng.Intn(40) // long enough for a strategy to buy and sell a few times
+		}
 		if n > 70 {
 			n = 70
 		}
@@ -188,8 +191,13 @@ func (c04) Run(c *Case, st *Stats) []Violation {
 	}
 	// ---- Run B: cut points
 	var cuts []int
-	if len(late) > 0 {
-		cuts = append(cuts, late[0], late[len(late)-1], late[rng.Intn(len(late))])
+	if len(late) > 0 && len(late) <= 24 {
+		cuts = append(cuts, late...) // every position that was not delivered promptly gets both differential runs
+	} else if len(late) > 0 {
+		cuts = append(cuts, late[0], late[len(late)-1])
+		for i := 0; i < 8; i++ {
+			cuts = append(cuts, late[rng.Intn(len(late))])
+		}
 	}
 	if len(late) == 0 && rng.Intn(10) == 0 && n > 0 {
 		cuts = append(cuts, 1+rng.Intn(n))
